@@ -200,9 +200,73 @@ func (w *WaitGroup) Wait() {
 	raceAcquire(unsafe.Pointer(w))
 }
 
-// Locker, Map, Pool and Cond are re-exported unchanged (not scheduling points).
-type (
-	Locker = sync.Locker
-	Map    = sync.Map
-	Pool   = sync.Pool
-)
+// Locker is re-exported unchanged.
+type Locker = sync.Locker
+
+// Map is a drop-in sync.Map whose operations are scheduling points (before and after).
+type Map struct{ m sync.Map }
+
+func (m *Map) Load(key interface{}) (value interface{}, ok bool) {
+	Yield()
+	value, ok = m.m.Load(key)
+	Yield()
+	return
+}
+
+func (m *Map) Store(key, value interface{}) {
+	Yield()
+	m.m.Store(key, value)
+	Yield()
+}
+
+func (m *Map) LoadOrStore(key, value interface{}) (actual interface{}, loaded bool) {
+	Yield()
+	actual, loaded = m.m.LoadOrStore(key, value)
+	Yield()
+	return
+}
+
+func (m *Map) LoadAndDelete(key interface{}) (value interface{}, loaded bool) {
+	Yield()
+	value, loaded = m.m.LoadAndDelete(key)
+	Yield()
+	return
+}
+
+func (m *Map) Delete(key interface{}) {
+	Yield()
+	m.m.Delete(key)
+	Yield()
+}
+
+func (m *Map) Range(f func(key, value interface{}) bool) {
+	Yield()
+	m.m.Range(f)
+	Yield()
+}
+
+// Pool is a drop-in sync.Pool whose Get and Put are scheduling points (before and after the
+// operation): a pool is a synchronisation object, and what one thread does between taking an item
+// and returning it must be interleavable with the other threads' use of the pool.
+type Pool struct {
+	New func() interface{}
+	p   sync.Pool
+}
+
+// Get is sync.Pool.Get.
+func (p *Pool) Get() interface{} {
+	Yield()
+	v := p.p.Get()
+	if v == nil && p.New != nil {
+		v = p.New()
+	}
+	Yield()
+	return v
+}
+
+// Put is sync.Pool.Put.
+func (p *Pool) Put(x interface{}) {
+	Yield()
+	p.p.Put(x)
+	Yield()
+}
